@@ -8,9 +8,12 @@
    the recovery state alone) never fail on a model trace.  Clause 402 (while recovering, a ResendRequest is created only as
    the next chunk at the expected number) never fails on a trace whose events do not end disconnected with frames still
    buffered and in which the application does not itself send a ResendRequest (ChunkProofs.v; both provisos are needed:
-   `_refuted` examples).  Clause 405 (no kept application message dropped) never fails on a trace whose directly processed
-   messages are well addressed (KeptProofs.v; the proviso is needed because the predicate's own record of what is kept can
-   be wrong otherwise: `_refuted` example). *)
+   `_refuted` examples).  Clause 405 (no kept application message dropped) never fails on ANY model trace
+   (KeptProofs.v; the predicate records a message under its number only when it passes the header checks, so that its record
+   of what is kept agrees with the engine's stash — invariant KA).  Clause 407 (while recovering, an early sequence-gated
+   message that passes the header checks is kept, nothing requested, expected number unchanged) never fails on a trace with a
+   non-negative ResendRequestChunkSize whose sequence-gated messages carry no GapFillFlag other than N (KeptProofs.v,
+   invariant CE; each proviso is needed: three `_refuted` examples). *)
 From Coq Require Import ZArith List Bool.
 From QF Require Import Base.Bytes Session.Types Session.Model Session.Spec Session.LocalProofs Session.C01Proofs Session.FrameProofs Session.TraceProofs Session.RecoveryProofs Session.ReactionProofs Session.TgProofs Session.ResendInvProofs
   Session.NoReqProofs Session.ChunkProofs Session.TjProofs Session.KeptProofs.
@@ -160,26 +163,72 @@ Theorem c04_kept_message_handed_over : forall s l0 ce re m s' next' k mk,
   delivered k (s_cbs s') = true \/ rst s' = true.
 Proof. exact rs_405. Qed.
 
-(* TRACE LEVEL.  For every configuration and every event list in which every directly processed message (EIncoming) is well
-   addressed (BeginString, CompIDs and SendingTime pass: hdr_ok), clause 405 of c04_check never fails: whenever the expected
+(* TRACE LEVEL.  For every configuration and EVERY event list, clause 405 of c04_check never fails: whenever the expected
    number passes the number of a kept application message that would be accepted, that message was handed to the application
-   in that step (unless the peer skipped it with a SequenceReset or the store was reset). *)
-Theorem c04_no_kept_message_dropped_on_addressed_traces : forall c es,
-  Forall (c04_addressed c) es ->
+   in that step (unless the peer skipped it with a SequenceReset or the store was reset).  No hypothesis: the predicate
+   records what is kept under a number only when the message passes the header checks (then it is the message the engine
+   keeps) and forgets the number otherwise; its record agrees with the engine's stash after every event (invariant KA). *)
+Theorem c04_no_kept_message_dropped_on_every_trace : forall c es,
   free_of [405] (c04_check c (combine es (map obs_of (run_trace es (init_sess c))))) = true.
 Proof. exact c04_no_kept_message_dropped. Qed.
 
-(* the hypothesis holds on a trace in which a kept message is indeed delivered when the gap closes *)
-Example c04_addressed_trace_example : Forall (c04_addressed (c04x_cfg 0)) c04x_kept_trace.
-Proof. exact c04x_kept_trace_addressed. Qed.
+(* non-vacuity: a trace in which a kept message is indeed delivered when the gap closes *)
 Example c04_kept_trace_delivers :
   map (fun o => (ob_st (snd o), ob_tgt (snd o), delivered 4 (ob_cbs (snd o)))) (c04x_run (c04x_cfg 0) c04x_kept_trace)
   = [(ShLogon, 1, false); (ShInSession, 2, false); (ShResend true [4] 0 3, 2, false); (ShResend true [4] 0 3, 3, false);
      (ShInSession, 5, true)].
 Proof. exact c04x_kept_trace_delivers. Qed.
 
-(* REFUTED without the proviso: a mis-addressed message bearing the number of a kept message makes the predicate's record of
-   what is kept wrong, and clause 405 fires on a model trace although the engine dropped nothing the peer did not skip. *)
-Theorem c04_no_kept_message_dropped_unconditional_refuted :
-  exists c es, c04_check c (combine es (map obs_of (run_trace es (init_sess c)))) = [(8%nat, 405)].
-Proof. exact c04_405_misaddressed_refuted. Qed.
+(* regression: the trace that refuted the clause under the former bookkeeping of `kept` (a mis-addressed message bearing the
+   number of a kept gap-fill SequenceReset, which then skips over kept message 10) is now reported clean *)
+Example c04_misaddressed_trace_now_clean :
+  c04_check (c04x_cfg 0) (c04x_run (c04x_cfg 0) c04x_misaddressed_trace) = []
+  /\ map (fun o => (ob_st (snd o), ob_tgt (snd o))) (c04x_run (c04x_cfg 0) c04x_misaddressed_trace)
+     = [(ShLogon, 1); (ShInSession, 2); (ShResend true [10] 0 9, 2); (ShResend true [10] 0 9, 2); (ShResend true [5; 10] 0 9, 2);
+        (ShResend true [10; 5] 0 9, 2); (ShResend true [10; 5] 0 9, 3); (ShResend true [10; 5] 0 9, 4); (ShInSession, 12)].
+Proof. exact c04x_misaddressed_trace_ok. Qed.
+
+(* ---------------------------------------------------------------------------------------------------------------------
+   Clause 407: while recovering, an early sequence-gated message is kept; nothing is requested. *)
+
+(* the reachable-state invariant: in the resend state the stash map exists and, for a non-negative chunk size, the current
+   chunk end is 0 or not below the expected number *)
+Theorem c04_chunk_end_not_below_expected_reachable : forall c es, Forall CE (run_trace es (init_sess c)).
+Proof. exact trace_ce. Qed.
+
+(* MODEL LEVEL (resendState.FixMsgIn).  In a recovering state whose chunk end is 0 or not below the expected number, a
+   sequence-gated message m numbered n above the expected number that passes the identity/time header checks and carries no
+   GapFillFlag other than N changes nothing but the stash: m is kept under n (replacing what was kept there). *)
+Theorem c04_early_message_joins_the_stash : forall s l0 ce re m n,
+  unwrap_pending (s_st s) = SResend (Some l0) ce re -> RI s -> (ce = 0 \/ s_tgt s <= ce) ->
+  hdr_ok (s_cfg s) m -> gated_type (mi_type m) = true -> mi_seq m = FVal n -> s_tgt s < n -> no_gap_flag m ->
+  resend_state_fix_msg_in s (Some l0) ce re m = (s, SResend (Some (stash_insert n m l0)) ce re).
+Proof. exact rs_407. Qed.
+
+(* TRACE LEVEL.  For every configuration with ResendRequestChunkSize >= 0 and every event list whose directly processed
+   sequence-gated messages carry GapFillFlag absent or N, clause 407 of c04_check never fails. *)
+Theorem c04_early_message_kept_on_every_trace : forall c es,
+  0 <= c_chunk c -> Forall c04_no_gap_flag es ->
+  free_of [407] (c04_check c (combine es (map obs_of (run_trace es (init_sess c))))) = true.
+Proof. exact c04_early_message_kept_while_recovering. Qed.
+
+(* non-vacuity: gap on the Logon itself (1..4, chunk size 2), then two early application messages, both kept *)
+Example c04_early_trace_example : Forall c04_no_gap_flag c04x_early_trace.
+Proof. exact c04x_early_trace_no_gap_flag. Qed.
+Example c04_early_trace_keeps :
+  map (fun o => (ob_st (snd o), ob_tgt (snd o))) (c04x_run (c04x_cfg 2) c04x_early_trace)
+  = [(ShLogon, 1); (ShResend true [] 2 4, 1); (ShResend true [10] 2 4, 1); (ShResend true [12; 10] 2 4, 1)].
+Proof. exact c04x_early_trace_keeps. Qed.
+
+(* REFUTED without the provisos: (a) an early application message with a malformed GapFillFlag disconnects the session;
+   (b) an early application message with GapFillFlag=Y at the chunk boundary triggers the next chunk request;
+   (c) a negative ResendRequestChunkSize makes every early message trigger another ResendRequest. *)
+Theorem c04_early_message_bad_gap_flag_refuted :
+  exists c es, 0 <= c_chunk c /\ c04_check c (combine es (map obs_of (run_trace es (init_sess c)))) = [(3%nat, 407)].
+Proof. exact c04_407_bad_gap_flag_refuted. Qed.
+Theorem c04_early_message_gap_flag_on_application_message_refuted :
+  exists c es, 0 <= c_chunk c /\ c04_check c (combine es (map obs_of (run_trace es (init_sess c)))) = [(4%nat, 407)].
+Proof. exact c04_407_gap_flag_on_application_message_refuted. Qed.
+Theorem c04_early_message_negative_chunk_size_refuted :
+  exists c es, Forall c04_no_gap_flag es /\ c04_check c (combine es (map obs_of (run_trace es (init_sess c)))) = [(3%nat, 407)].
+Proof. exact c04_407_negative_chunk_size_refuted. Qed.
